@@ -18,6 +18,14 @@ Image(c) == BF!Canon(c)
 ImageLimit == 48
 ImageOrNone(c) == IF Len(c.text) <= ImageLimit THEN Image(c) ELSE <<>>
 
+\* ---- names whose Shift-JIS form is L bytes long: one single-byte character (`tag`), then double-byte characters
+\* (so one of them straddles every even offset such as 64 and 128), then one more single byte if L is even
+LongLens == <<63, 64, 65, 127, 128, 129>>
+LongName(L, tag) ==
+  <<tag>> \o [p \in 1..(2 * ((L - 1) \div 2)) |->
+                IF p % 2 = 1 THEN (IF ((p + 1) \div 2) % 2 = 0 THEN 149 ELSE 130)
+                ELSE (IF (p \div 2) % 2 = 0 THEN 92 ELSE 160)]
+          \o (IF (L - 1) % 2 = 1 THEN <<98>> ELSE <<>>)
 \* ---- field values
 StrVal(i) == CASE i % 3 = 0 -> <<>> [] i % 3 = 1 -> <<97 + (i % 26), 95, 48 + (i % 10)>> [] OTHER -> <<130, 160 + i, 149, 92>>
 F32Pats == << <<63, 128, 0, 0>>,      \* 1.0
@@ -31,12 +39,14 @@ TypedVal(i) ==
     [] FKind(i) = "f32"   -> F32Pats[(i % 6) + 1]
     [] OTHER              -> <<200 + (i % 50), i, 255 - i, 7 * (i % 30)>>
 \* absentStyle: "default" = absent typed fields hold zero, "junk" = they hold a non-default value
-MkSpec(P, name, absentStyle) ==
+MkSpecWith(P, name, absentStyle, strOf(_)) ==
   [name |-> name,
    f |-> [n \in FieldNames |->
             LET i == CHOOSE i \in 1..NF : FName(i) = n IN
-            IF FKind(i) = "str" THEN (IF i \in P THEN Str(StrVal(i)) ELSE NoStr)
+            IF FKind(i) = "str" THEN (IF i \in P THEN Str(strOf(i)) ELSE NoStr)
             ELSE [some |-> i \in P, v |-> IF i \in P \/ absentStyle = "junk" THEN TypedVal(i) ELSE <<0, 0, 0, 0>>]]]
+MkSpec(P, name, absentStyle) == MkSpecWith(P, name, absentStyle, StrVal)
+LongStr(i) == LongName(LongLens[(i % 6) + 1], 97 + (i % 26))
 NameA == Str(<<110, 97, 109, 101>>)
 NameB == Str(<<130, 160>>)
 HeaderFlags == << <<0, 0, 0, 0>>, <<1, 2, 3, 4>>, <<255, 254, 128, 127>> >>
@@ -48,13 +58,15 @@ Pool == << MkSpec({}, NoStr, "default"), MkSpec(All, NameA, "default"), MkSpec({
 
 Buckets ==
   { [t |-> "pair", i |-> i] : i \in 1..(NF - 1) }
-  \cup { [t |-> x, i |-> 0] : x \in {"single", "allbut", "edge", "lists"} }
+  \cup { [t |-> x, i |-> 0] : x \in {"single", "allbut", "edge", "lists", "long"} }
 ValuesOf(b) ==
   CASE b.t = "pair"   -> { One(MkSpec({b.i, j}, IF j % 5 = 0 THEN NoStr ELSE NameA, Style(b.i + j)), 1 + ((b.i + j) % 3)) : j \in (b.i + 1)..NF }
     [] b.t = "single" -> { One(MkSpec({i}, NameA, st), 1 + (i % 3)) : i \in 1..NF, st \in {"default", "junk"} }
     [] b.t = "allbut" -> { One(MkSpec(All \ {i}, NameB, Style(i)), 1 + (i % 3)) : i \in 1..NF }
     [] b.t = "edge"   -> { One(MkSpec(P, nm, st), h) : P \in { {}, All, 1..31, 32..NF, 1..33, 34..NF }, nm \in {NoStr, Str(<<>>), NameA},
                                                        st \in {"default", "junk"}, h \in 1..3 }
+    [] b.t = "long"   -> { One(MkSpecWith(P, Str(LongName(L, 78)), "junk", LongStr), 2) :
+                             P \in { All, 1..31, {1, 33}, {5}, {32, 33, 40} }, L \in {63, 64, 65, 127, 128, 129} }
     [] b.t = "lists"  -> { [flags |-> HeaderFlags[2], specs |-> <<>>] }
                          \cup { [flags |-> HeaderFlags[1], specs |-> <<Pool[i]>>] : i \in 1..4 }
                          \cup { [flags |-> HeaderFlags[2], specs |-> <<Pool[i], Pool[j]>>] : i \in 1..4, j \in 1..4 }
